@@ -28,6 +28,7 @@ RULE = (
     "selection. State key = (letters of R, S, A.dims, alias partition of the underlying dim_list objects): the "
     "alias partition is kept because two states with equal letters but different sharing have different futures. "
     "Non-trivial = transition that changes a register or must be rejected."
+    " Also: Dimension right operands, one-shot iterables for subsets, namesake dimensions in one set, sets of zero-item dimensions, a replacement with the old name and a clashing letter."
 )
 ASSUMPTIONS = [
     "alphabet of 6 dimension letters; histories up to depth 3 (quick) / 4 (thorough)",
